@@ -21,7 +21,9 @@ JoinNul(gs, i) == IF i > Len(gs) THEN <<>> ELSE <<"0">> \o gs[i] \o JoinNul(gs, 
 RECURSIVE JoinQuoted(_, _)
 JoinQuoted(gs, i) == IF i > Len(gs) THEN <<>> ELSE <<"Q">> \o gs[i] \o <<"Q">> \o JoinQuoted(gs, i + 1)   \* Q = quote (never inside a group unescaped)
 Key(u) == IF KeyMode = "nul" THEN u.pat \o JoinNul(u.groups, 1) ELSE <<"Q">> \o u.pat \o <<"Q">> \o JoinQuoted(u.groups, 1)
-Compile(u) == <<u.pat, IF Len(u.groups) >= 2 THEN u.groups[2] ELSE <<"missing">>>>
+\* u.refs = the group numbers the pattern refers to, in order (\2\1 -> <<2, 1>>); the compiled pattern is identified by
+\* the pattern text and the texts of exactly those groups
+Compile(u) == <<u.pat, [k \in 1..Len(u.refs) |-> IF u.refs[k] + 1 <= Len(u.groups) THEN u.groups[u.refs[k] + 1] ELSE <<"missing">>]>>
 
 AllUses == UNION Histories \cup UNION {UNION {{C[p][i] : i \in 1..Len(C[p])} : p \in Procs} : C \in Scenarios}
 Keys == {Key(u) : u \in AllUses}
